@@ -309,6 +309,11 @@ func replayQPath(raw json.RawMessage) []string {
 		return []string{"violation: " + err.Error()}
 	}
 	fmt.Println("  model:", env.Describe())
+	if env.F != nil {
+		sn := env.F.VerifSnapshot()
+		fmt.Printf("  file: maxPages=%d dataEnd=%d metaEnd=%d dataFree=%v(%d) metaFree=%v(%d) metaTotal=%d freelistPages=%v wal=%v walPages=%v stats=%+v extent=%d\n",
+			sn.MaxPages, sn.DataEnd, sn.MetaEnd, sn.DataFree, sn.DataAvail, sn.MetaFree, sn.MetaAvail, sn.MetaTotal, sn.FreelistPages, sn.WALMapping, sn.WALMetaPages, sn.Stats, env.Disk.Len())
+	}
 	for _, o := range env.Obs {
 		fmt.Println("  obs:", o)
 	}
